@@ -1311,6 +1311,10 @@ class Translator:
             return SymL(f"(Np.linspace {self.S(args[0])} {self.S(args[1])} {int(args[2])})", int(args[2]))
         if f is np.searchsorted:
             side = kw.get("side", args[2] if len(args) > 2 else "left")
+            if (len(args) >= 2 and isinstance(args[0], np.ndarray) and args[0].ndim == 1 and args[0].dtype == np.float64 and len(args[0])
+                    and np.all(np.isfinite(args[0])) and np.all(np.diff(args[0]) > 0) and self.symbolic(args[1])):
+                # a concrete strictly increasing table of bin edges: the list of its literals
+                args = [SymL("[" + ", ".join(self.S(float(v)) for v in args[0]) + "]", len(args[0]))] + list(args[1:])
             if len(args) < 2 or not isinstance(args[0], SymL) or args[0].n is None or side != "left" or set(kw) - {"side"}:
                 raise Unsupported(f"`{ast.unparse(node)}`: only searchsorted(<idealised grid>, x) with side='left' is translated")
             self.needs.add("Numpy")
